@@ -204,6 +204,9 @@ def pregroup_case(rng, ctx):
     for label, words in sentences:
         for tkey in targets:
             nontrivial |= one_parse(ctx, label, words, tkey)
+    for label, words in sentences[:2]:
+        nontrivial |= one_parse(ctx, label + "/plain-target", words, target,
+                                plain=True)
     cap = 60 if ctx.tier == "quick" else 120
     if rng.random() < .7:
         nontrivial |= brute(rng, ctx, vocab, rng.choice(targets), max_calls=cap)
@@ -236,9 +239,16 @@ def check_parse(ctx, via, diagram, words, tkey):
     return n_cups
 
 
-def one_parse(ctx, label, words, tkey):
+def one_parse(ctx, label, words, tkey, plain=False):
     eager_parse = _M["pregroup"].eager_parse
     target = rigid_ty(tkey)
+    if plain:
+        # the target written as a plain monoidal type: it names simple types
+        # with winding number 0 only, nothing of type n.l passes for an n
+        from discopy import monoidal
+        target = monoidal.Ty(*[name for name, _ in tkey])
+        tkey = tuple((name, 0) for name, _ in tkey)
+        ctx.count("plain_monoidal_targets")
     try:
         diagram = eager_parse(*words, target=target)
     except NotImplementedError:
@@ -495,6 +505,10 @@ def rand_rule(rng, depth, counter, curry_depth=1):
                               counter=counter, curry_depth=curry_depth - 1,
                               dom=rand_bty(rng, max(0, depth - 1), 4,
                                            lengths=(0, 1, 2, 2, 3, 3)))
+        if rng.random() < .25:
+            # currying a BARE application box (not a diagram around it), with
+            # composite argument types and every n_wires the box allows
+            inner = bc.FA(a << b) if rng.random() < .5 else bc.BA(a >> b)
         n_wires = rng.randint(0, len(inner.dom))
         if n_wires == 0 and rng.random() < .5 and len(inner.dom):
             n_wires = rng.randint(1, len(inner.dom))
